@@ -179,6 +179,10 @@ type CheckDef struct {
 	Run         func(c *Ctx, r *Report)
 	// RaceRun is the free-running -race companion (optional).
 	RaceRun func(c *Ctx, r *Report)
+	// SchedRun is an additional exhaustive phase that runs in the scheduler
+	// build (optional; for checks whose main phase runs in the clock build).
+	SchedRun    func(c *Ctx, r *Report)
+	SchedShards int
 	// Replay re-executes one recorded case and returns a description and
 	// whether the violation reproduced.
 	Replay func(c *Ctx, raw json.RawMessage) (string, bool)
@@ -260,7 +264,7 @@ type workerOut struct {
 // runWorkers runs the check in `shards` subprocesses of the given binary and
 // merges their reports. A worker that dies is a violation (the code under test
 // crashed the process) unless it was killed by the infrastructure guard.
-func runWorkers(def *CheckDef, c *Ctx, kind string, shards int, race bool) *Report {
+func runWorkers(def *CheckDef, c *Ctx, kind string, shards int, race bool, mode ...string) *Report {
 	merged := NewReport()
 	type res struct {
 		i   int
@@ -276,6 +280,8 @@ func runWorkers(def *CheckDef, c *Ctx, kind string, shards int, race bool) *Repo
 			args := []string{"worker", def.ID, c.Tier, fmt.Sprint(i), fmt.Sprint(shards), fmt.Sprint(c.Seed), fmt.Sprint(c.Deadline.Unix())}
 			if race {
 				args = append(args, "race")
+			} else if len(mode) > 0 {
+				args = append(args, mode[0])
 			}
 			cmd := exec.Command(binPath(kind), args...)
 			logPath := filepath.Join(logDir, fmt.Sprintf("%s-%s-%d.log", def.ID, kind, i))
@@ -388,6 +394,8 @@ func workerMain() {
 	if len(a) > 6 && a[6] == "race" {
 		c.Race = true
 		def.RaceRun(c, r)
+	} else if len(a) > 6 && a[6] == "schedphase" {
+		def.SchedRun(c, r)
 	} else {
 		def.Run(c, r)
 	}
@@ -468,6 +476,13 @@ func runMain() int {
 		kind = "clock"
 	}
 	rep := runWorkers(def, c, kind, shards, false)
+	if def.SchedRun != nil {
+		n := def.SchedShards
+		if n < 1 {
+			n = 1
+		}
+		rep.Merge(runWorkers(def, c, "sched", n, false, "schedphase"))
+	}
 	if def.RaceRun != nil && os.Getenv("VERIF_NO_RACE") == "" {
 		rr := runWorkers(def, c, "race", 1, true)
 		rep.Extra["race_companion_runs"] = float64(rr.Evaluations)
